@@ -15,8 +15,9 @@ normalisations `norm` below, each of which is invisible to every evaluator of jp
 * a `group` operator in a script template (kept by the parser where it read a parenthesis it did not
   prove redundant) evaluates to its operand.
 
-Formalisation choices on "constructible" (`Constructible*` below): no `Bracket` fragment (a display
-flag) and no `Proc`; operands of equation constructors are not nil; integers are `int64`; a list
+Formalisation choices on "constructible" (`Constructible*` below): the `Bracket` flag fragment is not a
+constructor of `Frag` (the parser never builds it); API-built expressions with flags are `Option Frag` lists in
+`Bracket.lean` (top level of an expression only; round 3), with their own deviations; no `Proc`; operands of equation constructors are not nil; integers are `int64`; a list
 constant holds nil, Nothing, bool, int64, float64, string and lists of these (what the evaluator
 compares); a float constant is carried as its `FormatFloat(f,'g',-1,64)` text and a regex constant
 as a source text that compiles.
